@@ -21,7 +21,7 @@ import pathlib
 from sim import fixtures as fx
 from sim.runner import RunResult
 from sim.storage import SEAM
-from sim.tofuworld import HOSTS, PORTS, TofuWorld, app_bytes_info, load_cert, read_table
+from sim.tofuworld import HOSTS, PORTS, TofuWorld, app_bytes_info, load_cert, read_table, spell
 
 PROPERTY = "C11"
 LEVEL = "exploration"
@@ -44,7 +44,8 @@ COMPONENTS = {
 }
 ASSUMPTIONS = ["TLS 1.3: application records are the encrypted records after the client's "
                "Finished; alerts (close_notify) are not application bytes"]
-CERTS = fx.SERVER_CERTS + fx.BAD_CERTS
+CERTS = fx.SERVER_CERTS + fx.EXPIRED_CERTS + fx.BAD_CERTS
+CW = [4] * len(fx.SERVER_CERTS) + [4] * len(fx.EXPIRED_CERTS) + [1] * len(fx.BAD_CERTS)
 
 
 def run_one(ch):
@@ -56,7 +57,7 @@ def run_one(ch):
     certs = {}
     for h in HOSTS:
         for p in PORTS:
-            certs[(h, p)] = CERTS[ch.choose("cert0", len(CERTS), [4] * 6 + [1, 1])]
+            certs[(h, p)] = CERTS[ch.choose("cert0", len(CERTS), CW)]
             w.reader_mode[(h, p)] = ch.pick("reader", ["eager", "lazy", "never"], [5, 2, 2])
     w.setup_servers(certs)
     nops = 1 + ch.choose("nops", 6)
@@ -71,6 +72,7 @@ def run_one(ch):
 
     def url_of(key, path):
         h, p = key
+        h = spell(ch, h)
         return f"gemini://{h}{'' if p == 1965 else ':%d' % p}{path}"
 
     async def main():
@@ -90,7 +92,7 @@ def run_one(ch):
                 op = 0
             if op == 3:
                 key = endpoint("sw")
-                c = CERTS[ch.choose("swcert", len(CERTS), [4] * 6 + [2, 2])]
+                c = CERTS[ch.choose("swcert", len(CERTS), CW)]
                 w.servers[key].cert = c
                 hist.append(f"env: {key[0]}:{key[1]} now presents {c}")
                 continue
@@ -108,6 +110,8 @@ def run_one(ch):
                         any(v == key for v in w.redirect.values()):
                     tgt = None
                 w.redirect[key] = tgt
+                if tgt is not None:
+                    w.redirect_spelling[key] = spell(ch, tgt[0], "rdcase")
                 hist.append(f"env: {key[0]}:{key[1]} redirects to {tgt}")
                 if tgt is not None and ch.chance("rd_fetch_next", 0.7):
                     forced_key = key
